@@ -3,6 +3,7 @@ CONSTANTS
   N = 3
   RF = 3
   MaxRep = 4
+  Admins = FALSE
   KeepMax = FALSE
 VIEW View
 CONSTRAINT Bound
